@@ -50,7 +50,12 @@ pub mod ffi {
         idx: u64,
     ) {
         let idx = idx.try_into().ok();
-        match idx.and_then(|idx| this.get(idx)) {
+
+        // The lock is taken once and held until the element has been cloned:
+        // the pointer is only valid as long as no other thread pushes to
+        // this list.
+        let raw = this.0.lock().unwrap();
+        match idx.and_then(|idx| raw.get(idx)) {
             Some(src) => {
                 // We got a pointer into the list, clone it into out at the correct alignment
 
@@ -63,7 +68,6 @@ pub mod ffi {
                 // `out` must be a valid RotoOption<T>.
                 unsafe { out.cast::<u8>().write(1) };
 
-                let raw = this.0.lock().unwrap();
                 let size = raw.vtable.size();
                 let alignment = raw.vtable.align();
                 let offset = 1usize.next_multiple_of(alignment);
@@ -245,7 +249,11 @@ pub mod boundary {
 
         /// Get the element at index `idx`
         pub fn get(&self, idx: usize) -> Option<T> {
-            let ptr = self.inner.get(idx)?;
+            // The lock must be held until the element has been cloned: the
+            // pointer is only valid as long as no other thread pushes to
+            // this list.
+            let guard = self.inner.0.lock().unwrap();
+            let ptr = guard.get(idx)?;
 
             // SAFETY: The list has values of T::Transformed, which means that
             // this cast is valid.
@@ -551,12 +559,6 @@ impl ErasedList {
         drop(raw);
 
         new
-    }
-
-    pub fn get(&self, idx: usize) -> Option<NonNull<T>> {
-        #[cfg(roto_verif)]
-        crate::verif::sched::point("acquire", self.vid(), 0);
-        self.0.lock().unwrap().get(idx)
     }
 
     /// Check whether a list contains a value.
